@@ -274,10 +274,10 @@ theorem constA' {v v' : Vol} {es : List Ev} (P : Disk → Prop)
 
 /-! ## building blocks -/
 
-theorem flushA (v : Vol) (junks : List Layer) (E : Key → Option Bytes) (Hd suf : List Mutation) :
-    Seg (GoodA E (Hd ++ suf) Hd.length) (fun x => QA E Hd x v) (flushEvs v junks).1 (fun x => QA E Hd x (flushEvs v junks).2) :=
+theorem flushA (v : Vol) (E : Key → Option Bytes) (Hd suf : List Mutation) :
+    Seg (GoodA E (Hd ++ suf) Hd.length) (fun x => QA E Hd x v) (flushEvs v).1 (fun x => QA E Hd x (flushEvs v).2) :=
   constA (fun d junk ro rc tn hq => by
-    obtain ⟨junk', h⟩ := flush_seg d v junk ro rc tn hq junks
+    obtain ⟨junk', h⟩ := flush_seg d v junk ro rc tn hq
     exact ⟨junk', ro, rc, tn, h⟩) E Hd suf
 
 theorem tornA (v : Vol) (hu : usable v.s = true) (hq : v.queue ≠ []) (E : Key → Option Bytes) (Hd suf : List Mutation) :
@@ -325,48 +325,48 @@ theorem enq_QW {x : Disk} {v : Vol} {junk : List WalFile} {ro rc : List Mutation
       rw [hu] at this; cases this }
 
 /-- a rotation: the flusher finishes, closing the file writes out the whole buffer, the next file is started -/
-theorem rotateA (v : Vol) (hu : usable v.s = true) (junks : List Layer) (E : Key → Option Bytes) (Hd suf : List Mutation) :
-    Seg (GoodA E (Hd ++ v.queue ++ suf) Hd.length) (fun x => QA E Hd x v) (rotateEvs v junks).1
-      (fun x => QA E (Hd ++ v.queue) x (rotateEvs v junks).2) := by
-  have hv1s : (flushEvs v junks).2.s = flushStep v.s := flushEvs_s v
-  have hu1 : usable (flushEvs v junks).2.s = true := by rw [hv1s, usable_flush]; exact hu
-  have hp1 : (flushEvs v junks).2.s.flushPending = false := by rw [hv1s]; exact flushStep_pending _
-  have hq1 : (flushEvs v junks).2.queue = v.queue := flushEvs_queue v
-  have e0 : (rotateEvs v junks).1 = (flushEvs v junks).1 ++ drainEvs (flushEvs v junks).2.walCur (flushEvs v junks).2.queue ++ [Ev.walClose (flushEvs v junks).2.walCur, Ev.walCreate ((flushEvs v junks).2.walCur + 1), Ev.walHeader ((flushEvs v junks).2.walCur + 1)] := rfl
-  have e1 : (rotateEvs v junks).2 = { s := rotate (flushEvs v junks).2.s, walCur := (flushEvs v junks).2.walCur + 1, walOld := some (flushEvs v junks).2.walCur, queue := [] } := by
-    have e : (rotateEvs v junks).2 = { s := rotate v.s, walCur := (flushEvs v junks).2.walCur + 1, walOld := some (flushEvs v junks).2.walCur, queue := [] } := rfl
+theorem rotateA (v : Vol) (hu : usable v.s = true) (E : Key → Option Bytes) (Hd suf : List Mutation) :
+    Seg (GoodA E (Hd ++ v.queue ++ suf) Hd.length) (fun x => QA E Hd x v) (rotateEvs v).1
+      (fun x => QA E (Hd ++ v.queue) x (rotateEvs v).2) := by
+  have hv1s : (flushEvs v).2.s = flushStep v.s := flushEvs_s v
+  have hu1 : usable (flushEvs v).2.s = true := by rw [hv1s, usable_flush]; exact hu
+  have hp1 : (flushEvs v).2.s.flushPending = false := by rw [hv1s]; exact flushStep_pending _
+  have hq1 : (flushEvs v).2.queue = v.queue := flushEvs_queue v
+  have e0 : (rotateEvs v).1 = (flushEvs v).1 ++ drainEvs (flushEvs v).2.walCur (flushEvs v).2.queue ++ [Ev.walClose (flushEvs v).2.walCur, Ev.walCreate ((flushEvs v).2.walCur + 1), Ev.walHeader ((flushEvs v).2.walCur + 1)] := rfl
+  have e1 : (rotateEvs v).2 = { s := rotate (flushEvs v).2.s, walCur := (flushEvs v).2.walCur + 1, walOld := some (flushEvs v).2.walCur, queue := [] } := by
+    have e : (rotateEvs v).2 = { s := rotate v.s, walCur := (flushEvs v).2.walCur + 1, walOld := some (flushEvs v).2.walCur, queue := [] } := rfl
     rw [e, hv1s, rotate_flush]
   rw [e0, e1]
   -- the flusher
-  have s1 : Seg (GoodA E (Hd ++ v.queue ++ suf) Hd.length) (fun x => QA E Hd x v) (flushEvs v junks).1
-      (fun x => QA E Hd x (flushEvs v junks).2) := by
-    have := flushA v junks E Hd (v.queue ++ suf)
+  have s1 : Seg (GoodA E (Hd ++ v.queue ++ suf) Hd.length) (fun x => QA E Hd x v) (flushEvs v).1
+      (fun x => QA E Hd x (flushEvs v).2) := by
+    have := flushA v E Hd (v.queue ++ suf)
     rw [← List.append_assoc] at this; exact this
   -- the buffer
-  have s2 : Seg (GoodA E (Hd ++ v.queue ++ suf) Hd.length) (fun x => QA E Hd x (flushEvs v junks).2)
-      (drainEvs (flushEvs v junks).2.walCur (flushEvs v junks).2.queue)
-      (fun x => QA E (Hd ++ v.queue) x { (flushEvs v junks).2 with queue := [] }) := by
-    have := drainA E Hd (flushEvs v junks).2.queue [] suf (flushEvs v junks).2 hu1 (by simp)
+  have s2 : Seg (GoodA E (Hd ++ v.queue ++ suf) Hd.length) (fun x => QA E Hd x (flushEvs v).2)
+      (drainEvs (flushEvs v).2.walCur (flushEvs v).2.queue)
+      (fun x => QA E (Hd ++ v.queue) x { (flushEvs v).2 with queue := [] }) := by
+    have := drainA E Hd (flushEvs v).2.queue [] suf (flushEvs v).2 hu1 (by simp)
     rw [hq1] at this ⊢
     exact this
   -- the new file
-  have s3 : Seg (GoodA E (Hd ++ v.queue ++ suf) Hd.length) (fun x => QA E (Hd ++ v.queue) x { (flushEvs v junks).2 with queue := [] })
-      [Ev.walClose (flushEvs v junks).2.walCur, Ev.walCreate ((flushEvs v junks).2.walCur + 1), Ev.walHeader ((flushEvs v junks).2.walCur + 1)]
-      (fun x => QA E (Hd ++ v.queue) x { s := rotate (flushEvs v junks).2.s, walCur := (flushEvs v junks).2.walCur + 1, walOld := some (flushEvs v junks).2.walCur, queue := [] }) := by
-    have := constA (v := { (flushEvs v junks).2 with queue := [] })
-      (v' := { s := rotate (flushEvs v junks).2.s, walCur := (flushEvs v junks).2.walCur + 1, walOld := some (flushEvs v junks).2.walCur, queue := [] })
-      (es := [Ev.walClose (flushEvs v junks).2.walCur, Ev.walCreate ((flushEvs v junks).2.walCur + 1), Ev.walHeader ((flushEvs v junks).2.walCur + 1)])
-      (fun d junk ro rc tn hq => ⟨junk, rc, [], false, rotTail_seg d { (flushEvs v junks).2 with queue := [] } junk ro rc tn hq hu1 hp1 rfl⟩) E (Hd ++ v.queue) suf
+  have s3 : Seg (GoodA E (Hd ++ v.queue ++ suf) Hd.length) (fun x => QA E (Hd ++ v.queue) x { (flushEvs v).2 with queue := [] })
+      [Ev.walClose (flushEvs v).2.walCur, Ev.walCreate ((flushEvs v).2.walCur + 1), Ev.walHeader ((flushEvs v).2.walCur + 1)]
+      (fun x => QA E (Hd ++ v.queue) x { s := rotate (flushEvs v).2.s, walCur := (flushEvs v).2.walCur + 1, walOld := some (flushEvs v).2.walCur, queue := [] }) := by
+    have := constA (v := { (flushEvs v).2 with queue := [] })
+      (v' := { s := rotate (flushEvs v).2.s, walCur := (flushEvs v).2.walCur + 1, walOld := some (flushEvs v).2.walCur, queue := [] })
+      (es := [Ev.walClose (flushEvs v).2.walCur, Ev.walCreate ((flushEvs v).2.walCur + 1), Ev.walHeader ((flushEvs v).2.walCur + 1)])
+      (fun d junk ro rc tn hq => ⟨junk, rc, [], false, rotTail_seg d { (flushEvs v).2 with queue := [] } junk ro rc tn hq hu1 hp1 rfl⟩) E (Hd ++ v.queue) suf
     exact this.good_mono (fun y hy => hy.mono (by simp) ⟨[], by simp⟩)
   exact Seg.append (Seg.append s1 s2) s3
 
 /-- an accepted write: buffered, then (possibly) part of the buffer is written, then (possibly) a rotation -/
 theorem writeA (v : Vol) (hu : usable v.s = true) (m : Mutation) (hm : m.ok = true) (rot : Bool) (dr : Nat) (tn : Bool)
-    (junks : List Layer) (E : Key → Option Bytes) (Hd : List Mutation) :
-    Seg (GoodA E (Hd ++ v.queue ++ [m]) Hd.length) (fun x => QA E Hd x v) (writeEvs true v m rot dr tn junks).1
-      (fun x => ∃ Hd', QA E Hd' x (writeEvs true v m rot dr tn junks).2 ∧
-        Hd' ++ (writeEvs true v m rot dr tn junks).2.queue = Hd ++ v.queue ++ [m] ∧ Hd.length ≤ Hd'.length ∧
-        (rot = true → (writeEvs true v m rot dr tn junks).2.queue = [])) := by
+    (E : Key → Option Bytes) (Hd : List Mutation) :
+    Seg (GoodA E (Hd ++ v.queue ++ [m]) Hd.length) (fun x => QA E Hd x v) (writeEvs true v m rot dr tn).1
+      (fun x => ∃ Hd', QA E Hd' x (writeEvs true v m rot dr tn).2 ∧
+        Hd' ++ (writeEvs true v m rot dr tn).2.queue = Hd ++ v.queue ++ [m] ∧ Hd.length ≤ Hd'.length ∧
+        (rot = true → (writeEvs true v m rot dr tn).2.queue = [])) := by
   -- names
   let q := v.queue ++ [m]
   let enq : Vol := { wrote v m with queue := q }
@@ -409,7 +409,7 @@ theorem writeA (v : Vol) (hu : usable v.s = true) (m : Mutation) (hm : m.ok = tr
   have s12 := Seg.append s1 s2
   cases rot with
   | false =>
-    have he : writeEvs true v m false dr tn junks = logEvs true (wrote v m) m dr tn := rfl
+    have he : writeEvs true v m false dr tn = logEvs true (wrote v m) m dr tn := rfl
     rw [he, hlog]
     intro x hx
     obtain ⟨g, qq⟩ := s12 x (s0 x hx)
@@ -417,11 +417,11 @@ theorem writeA (v : Vol) (hu : usable v.s = true) (m : Mutation) (hm : m.ok = tr
     show Hd ++ q.take dr ++ q.drop dr = Hd ++ q
     rw [List.append_assoc, List.take_append_drop]
   | true =>
-    have he : writeEvs true v m true dr tn junks =
-        ((logEvs true (wrote v m) m dr tn).1 ++ (rotateEvs (logEvs true (wrote v m) m dr tn).2 junks).1,
-          (rotateEvs (logEvs true (wrote v m) m dr tn).2 junks).2) := rfl
+    have he : writeEvs true v m true dr tn =
+        ((logEvs true (wrote v m) m dr tn).1 ++ (rotateEvs (logEvs true (wrote v m) m dr tn).2).1,
+          (rotateEvs (logEvs true (wrote v m) m dr tn).2).2) := rfl
     rw [he, hlog]
-    have s3 := rotateA v1 hu junks E (Hd ++ q.take dr) []
+    have s3 := rotateA v1 hu E (Hd ++ q.take dr) []
     have hv1q : v1.queue = q.drop dr := rfl
     rw [hv1q, List.append_nil, List.append_assoc, List.take_append_drop] at s3
     have s3' := s3.good_mono (Good' := GoodA E (Hd ++ q) Hd.length)
@@ -521,11 +521,11 @@ theorem asyncStep (E : Key → Option Bytes) (Hd : List Mutation) (d : Disk) (v 
       (stepRotates v.s st' = (rot && (stepMut v.s st').isSome)) →
       Seg (GoodA E (Hd ++ v.queue ++ (stepMut v.s st').toList) Hd.length) (fun x => x = d)
         (match stepMut v.s st' with
-          | some m => writeEvs true v m rot dr tn junks
+          | some m => writeEvs true v m rot dr tn
           | none => ([], v)).1
         (PostA E Hd (Hd ++ v.queue ++ (stepMut v.s st').toList) (stepRotates v.s st')
           (match stepMut v.s st' with
-          | some m => writeEvs true v m rot dr tn junks
+          | some m => writeEvs true v m rot dr tn
           | none => ([], v)).2) := by
     intro st' rot hok hrot
     rw [hrot]
@@ -533,7 +533,7 @@ theorem asyncStep (E : Key → Option Bytes) (Hd : List Mutation) (d : Disk) (v 
     | none => exact hnil _ _ rfl (by simp)
     | some m =>
       obtain ⟨hu, hmo⟩ := hok m hm
-      have := hstart (writeA v hu m hmo rot dr tn junks E Hd)
+      have := hstart (writeA v hu m hmo rot dr tn E Hd)
       simp only [Option.toList, Option.isSome_some, Bool.and_true]
       exact this
   cases st with
@@ -586,13 +586,13 @@ theorem asyncStep (E : Key → Option Bytes) (Hd : List Mutation) (d : Disk) (v 
       simp only [if_true]
       refine hstart ?_
       intro x hx
-      obtain ⟨g, q⟩ := rotateA v hu junks E Hd [] x hx
+      obtain ⟨g, q⟩ := rotateA v hu E Hd [] x hx
       exact ⟨g, Hd ++ v.queue, q, by simp [rotateEvs], by simp, fun _ => rfl⟩
   | flush =>
     simp only [fsStep, stepMut, stepRotates, Option.toList]
     refine hstart ?_
     intro x hx
-    have := flushA v junks E Hd (v.queue ++ [])
+    have := flushA v E Hd (v.queue ++ [])
     rw [← List.append_assoc] at this
     obtain ⟨g, q⟩ := this x hx
     exact ⟨g, Hd, q, by rw [flushEvs_queue]; simp, Nat.le_refl _, by intro hf; cases hf⟩
@@ -602,8 +602,8 @@ theorem asyncStep (E : Key → Option Bytes) (Hd : List Mutation) (d : Disk) (v 
     | false => exact hnil _ _ rfl rfl
     | true =>
       simp only [if_true]
-      have := constA' (v := v) (v' := (compactEvs d v sizes).2) (es := (compactEvs d v sizes).1) (fun x => x = d)
-        (fun x hx junk ro rc tn hq => by subst hx; exact ⟨junk, ro, rc, tn, compact_seg x v junk ro rc tn hq sizes⟩)
+      have := constA' (v := v) (v' := (compactEvs d v sizes junks).2) (es := (compactEvs d v sizes junks).1) (fun x => x = d)
+        (fun x hx junk ro rc tn hq => by subst hx; exact ⟨junk, ro, rc, tn, compact_seg x v junk ro rc tn hq sizes junks⟩)
         E Hd (v.queue ++ [])
       rw [← List.append_assoc] at this
       intro x hx
@@ -617,20 +617,20 @@ theorem asyncStep (E : Key → Option Bytes) (Hd : List Mutation) (d : Disk) (v 
       simp only [if_true]
       refine hstart ?_
       -- rotate, let the flusher finish, close the file
-      have s1 := rotateA v hu junks E Hd []
-      have hus2 : usable (rotateEvs v junks).2.s = true := by
+      have s1 := rotateA v hu E Hd []
+      have hus2 : usable (rotateEvs v).2.s = true := by
         show usable (rotate v.s) = true
         rw [usable_rotate]; exact hu
-      have s2 := flushA (rotateEvs v junks).2 junks E (Hd ++ v.queue) []
-      have hus3 : usable (flushEvs (rotateEvs v junks).2 junks).2.s = true := by
+      have s2 := flushA (rotateEvs v).2 E (Hd ++ v.queue) []
+      have hus3 : usable (flushEvs (rotateEvs v).2).2.s = true := by
         rw [flushEvs_s, usable_flush]; exact hus2
-      have hp3 : (flushEvs (rotateEvs v junks).2 junks).2.s.flushPending = false := by
+      have hp3 : (flushEvs (rotateEvs v).2).2.s.flushPending = false := by
         rw [flushEvs_s]; exact flushStep_pending _
-      have hq3 : (flushEvs (rotateEvs v junks).2 junks).2.queue = [] := by rw [flushEvs_queue]; rfl
-      have hw3 : (flushEvs (rotateEvs v junks).2 junks).2.s.w = [] := by rw [flushEvs_s, flushStep_w]; rfl
-      have s3 := constA (v := (flushEvs (rotateEvs v junks).2 junks).2)
-        (v' := { (flushEvs (rotateEvs v junks).2 junks).2 with s := { (flushEvs (rotateEvs v junks).2 junks).2.s with closed := true } })
-        (es := [Ev.walClose (flushEvs (rotateEvs v junks).2 junks).2.walCur])
+      have hq3 : (flushEvs (rotateEvs v).2).2.queue = [] := by rw [flushEvs_queue]; rfl
+      have hw3 : (flushEvs (rotateEvs v).2).2.s.w = [] := by rw [flushEvs_s, flushStep_w]; rfl
+      have s3 := constA (v := (flushEvs (rotateEvs v).2).2)
+        (v' := { (flushEvs (rotateEvs v).2).2 with s := { (flushEvs (rotateEvs v).2).2.s with closed := true } })
+        (es := [Ev.walClose (flushEvs (rotateEvs v).2).2.walCur])
         (fun x junk ro rc tn hq => ⟨_, _, _, _, closeTail_seg x _ junk ro rc tn hq hus3 hp3 hq3 hw3⟩) E (Hd ++ v.queue) []
       have hmono : ∀ y, GoodA E (Hd ++ v.queue ++ []) (Hd ++ v.queue).length y → GoodA E (Hd ++ v.queue ++ []) Hd.length y :=
         fun y hy => hy.mono (by simp) ⟨[], by simp⟩
